@@ -23,6 +23,9 @@ use proc_macro2::Ident;
 /// This is used to generate snake_case method names from PascalCase event names,
 /// following Rust naming conventions while preserving event enum variants in PascalCase.
 pub fn to_snake_case(s: &str) -> String {
+    // A raw identifier (`r#loop`) contributes its bare name to derived identifiers
+    // (`into_loop`, `loop_data`, `__state_data_loop`): `into_r#loop` is not an identifier.
+    let s = s.strip_prefix("r#").unwrap_or(s);
     let mut result = String::new();
     let chars: Vec<char> = s.chars().collect();
 
